@@ -77,6 +77,13 @@ def modelOp (op : String) (args : List Str) : String :=
     match args with
     | te :: ti :: rest => showCmd (runStatic genCfg te ti (rest.map parseSetting))
     | _ => "bad-op"
+  | "render" =>
+    match args with
+    | [ep, res, text] =>
+      -- the current template embeds verbatim; the repaired generator would bracket a bare IPv6 address
+      if renderMgmt ep res == text || renderMgmt (bracketV6 ep) (bracketV6 res) == text then "-"
+      else "render-differs"
+    | _ => "bad-op"
   | _ => "bad-op"
 
 def modelLine (line : String) : String :=
@@ -97,17 +104,14 @@ def rejectSig (s : Str) (dflt : String) : String :=
   | some v => if v ≥ 32768 then "endpoint-port-ge-32768" else dflt
   | none => dflt
 
-/-- refined class of an accepted optional-port value that NGINX's `ngx_parse_url` refuses -/
+/-- class of an accepted optional-port value that NGINX's `ngx_parse_url` refuses -/
 def addrClass (s : Str) : String :=
-  if s.contains ':' && parseIP s then "bare-ipv6"
-  else match splitHostPort s with
-    | .ok (h, p) =>
-      if p.isEmpty then "empty-port"
-      else if (match parseInt 64 p with | some v => v < 1 || v > 65535 | none => true) then "port-out-of-range"
-      else if p.head? == some '+' then "signed-port"
-      else if s.head? == some '[' && !isV6 h then "bracketed-non-ipv6"
-      else if hasUnixPrefix s then "unix-prefix"
-      else "other"
+  match addrDefect s with
+  | some c => c
+  | none =>
+    match splitHostPort s with
+    | .ok (_, p) =>
+      if (match parseInt 64 p with | some v => v < 1 || v > 65535 | none => true) then "port-out-of-range" else "other"
     | .error _ => "other"
 
 def judgeStr (op : String) (s : Str) (ok : Bool) : Option String :=
@@ -120,7 +124,8 @@ def judgeStr (op : String) (s : Str) (ok : Bool) : Option String :=
   | "endpointopt" =>
     if docEndpointOpt s && !ok then some (rejectSig s "endpointopt-rejects-documented")
     else if ok && !safeBareArg s then some "endpointopt-accepts-unsafe-chars"
-    else if ok && !nginxAddrOk s then some ("nginx-addr-" ++ addrClass s)
+    -- a bare IPv6 address is judged on the rendered file (the generator may add the brackets)
+    else if ok && !nginxAddrOk s && addrClass s != "bare-ipv6" then some ("nginx-addr-" ++ addrClass s)
     else none
   | "ip" =>
     if (isV4 s || (s.contains ':' && isV6 s)) && !ok then some "ip-rejects-documented"
@@ -169,6 +174,15 @@ def lastPort (f : Flag) (dflt : Int) (args : List (Flag × Str)) : Int :=
 def lastStr (f : Flag) (dflt : Str) (args : List (Flag × Str)) : Str :=
   args.foldl (fun acc (g, v) => if g == f then v else acc) dflt
 
+/-- the refused setting is an endpoint value whose port is ≥ 32768 -/
+def portRegression (te : Str) (args : List (Flag × Str)) (verdict : String) : Bool :=
+  match verdict.splitOn ":" with
+  | ["flag", i] =>
+    match i.toNat? >>= (args[·]?) with
+    | some (f, v) => (f == .urEndpoint || f == .urResolver) && (portOf v).any (· ≥ 32768)
+    | none => false
+  | _ => verdict == "telemetry-endpoint" && (portOf te).any (· ≥ 32768)
+
 def judgeStatic (te ti : Str) (args : List (Flag × Str)) (verdict : String) : Option String :=
   let mp := lastPort .metricsPort 9113 args
   let hp := lastPort .healthPort 8081 args
@@ -185,9 +199,8 @@ def judgeStatic (te ti : Str) (args : List (Flag × Str)) (verdict : String) : O
   else
     if required && mp != hp && args.all (fun (f, v) => settingDoc f v) && (te.isEmpty || docEndpoint te)
         && (parseBool ti).isSome && (!plusOn || secretSet) then
-      some (if args.any (fun (f, v) => (f == .urEndpoint || f == .urResolver) && (portOf v).any (· ≥ 32768))
-              || (portOf te).any (· ≥ 32768)
-            then "endpoint-port-ge-32768" else "static-rejects-valid-command-line")
+      -- the regression of the ParseInt bit size has its own signature
+      some (if portRegression te args verdict then "endpoint-port-ge-32768" else "static-rejects-valid-command-line")
     else none
 
 def judgeOp (op : String) (args : List Str) (verdict : String) : Option String :=
@@ -206,10 +219,14 @@ def judgeOp (op : String) (args : List Str) (verdict : String) : Option String :
   | "render" =>
     match args with
     | [ep, res, text] =>
-      if !mgmtConfOK text ep res then some "mgmt-conf-not-verbatim"
-      else if !res.isEmpty && !nginxAddrOk res then some ("nginx-addr-" ++ addrClass res)
-      else if !ep.isEmpty && !nginxAddrOk ep then some ("nginx-addr-" ++ addrClass ep)
-      else none
+      -- which arguments were rendered: the values verbatim, or a bare IPv6 address between brackets
+      let variants := [(ep, res), (ep, bracketV6 res), (bracketV6 ep, res), (bracketV6 ep, bracketV6 res)]
+      match variants.find? (fun (e, r) => mgmtConfOK text e r) with
+      | none => some "mgmt-conf-not-verbatim"
+      | some (e, r) =>
+        if !r.isEmpty && !nginxAddrOk r then some ("nginx-addr-" ++ addrClass res)
+        else if !e.isEmpty && !nginxAddrOk e then some ("nginx-addr-" ++ addrClass ep)
+        else none
     | _ => some "bad-op"
   | _ => judgeStr op (args.headD []) (verdict == "ok")
 
